@@ -10,6 +10,7 @@ import traceback
 import repo  # noqa: F401
 from common import KnownFindings, MachineryError, Report, text_hash
 from export_ir import export_body
+from xdsl.dialects import linalg
 from objs import run_obj_batch
 from pairs import oracle_at, run_pair_batch
 
@@ -362,6 +363,89 @@ def run(pid: str, tier: str, seed: int, selftest=False, replay=None) -> int:
         rcases.append({"name": f"rescale:{seed}:{k}", "A": ia, "B": ib, "argdom": [xs, [0]], "opqdom": [[0]], "text": text, "after": str(gb),
                        "pipe": "convert-kernel-to-linalg"})
     cases += rcases
+    # tosa.rescale (+ tosa.clamp) -> linalg.generic { kernel.rescale } (convert-tosa-to-kernel): the kernel must be the scalar function of the
+    # tosa ops - zero points, multiplier, shift and the clamp interval (the clamp's, or the range of the i8 result without a clamp)
+    tcases, tflags = [], []
+    for k in range(40 if quick else 500):
+        sh = rng.choice([0, 1, 4, 7, 9])
+        mult = rng.choice([1, 2, 3, 5]) * (2 ** sh) if rng.random() < 0.7 else rng.choice([1, 3, 100, 1234])
+        zin, zout = rng.choice([0, 3, -7, 23]), rng.choice([0, -5, 20, -23])
+        clamp = rng.random() < 0.7
+        out = "i8" if (not clamp or rng.random() < 0.7) else "i32"
+        lo, hi = rng.choice([(-128, 127), (-100, 127), (-50, 100), (0, 127), (-128, 0)]) if clamp else (-128, 127)
+        dr = rng.random() < 0.3
+        shp = rng.choice(["8", "?x8", "2x4"])
+        ty_in, ty_out = f"tensor<{shp}xi32>", f"tensor<{shp}x{out}>"
+        second_use = rng.random() < 0.15      # the rescale result has another user: the pair is not one kernel
+        lines = [f'%izp = "tosa.const"() <{{values = dense<{zin}> : tensor<1xi32>}}> : () -> tensor<1xi32>',
+                 f'%ozp = "tosa.const"() <{{values = dense<{zout}> : tensor<1xi32>}}> : () -> tensor<1xi32>',
+                 f'%mul = "tosa.const"() <{{values = dense<{mult}> : tensor<1xi32>}}> : () -> tensor<1xi32>',
+                 f'%shf = "tosa.const"() <{{values = dense<{sh}> : tensor<1xi32>}}> : () -> tensor<1xi32>',
+                 f'%r = tosa.rescale %t, %mul, %shf, %izp, %ozp {{rounding_mode = {"DOUBLE_ROUND" if dr else "SINGLE_ROUND"}, per_channel = false, scale32 = true, '
+                 f'input_unsigned = false, output_unsigned = false}} : ({ty_in}, tensor<1xi32>, tensor<1xi32>, tensor<1xi32>, tensor<1xi32>) -> {ty_out}']
+        res = "%r"
+        if clamp:
+            lines.append(f"%c = tosa.clamp %r {{max_val = {hi} : {out}, min_val = {lo} : {out}}} : ({ty_out}) -> {ty_out}")
+            res = "%c"
+        if second_use:
+            lines.append(f'"test.op"(%r) : ({ty_out}) -> ()')
+        text = ("builtin.module {\n  func.func @f(%t : " + ty_in + ") -> " + ty_out + " {\n    " + "\n    ".join(lines)
+                + f"\n    func.return {res} : {ty_out}\n  }}\n}}\n")
+        name = f"tosa:{seed}:{k}"
+        try:
+            src = repo.parse(text)
+            src.verify()
+        except Exception as e:
+            raise MachineryError(f"generator produced invalid tosa input: {e}\n{text}")
+        m = src.clone()
+        try:
+            repo.run_pipeline(m, "convert-tosa-to-kernel")
+            m.verify()
+        except Exception as e:
+            rep.violation(name, f"convert-tosa-to-kernel raised {type(e).__name__}: {str(e)[:200]}", {"source": text})
+            continue
+        gens = [o for o in m.walk() if isinstance(o, linalg.GenericOp)]
+        left = [o.name for o in m.walk() if o.name in ("tosa.rescale", "tosa.clamp")]
+        if second_use and clamp:
+            if gens or len(left) != 2:
+                rep.violation(name, "a rescale whose result has a second user was folded into a kernel", {"source": text, "after": str(m)[:2500]})
+            continue
+        if not gens:
+            rep.refused += 1      # left as it is
+            continue
+        if len(gens) != 1 or (left and not second_use):
+            rep.violation(name, "the rescale/clamp pair was not replaced by exactly one linalg.generic", {"source": text, "after": str(m)[:2500]})
+            continue
+        # the scalar meaning of the tosa ops, written as the kernel it denotes (reference body, exported like any other body)
+        ref = f"""builtin.module {{
+  func.func @f(%m0 : memref<8xi32>, %m1 : memref<8x{out}>) {{
+    linalg.generic {{indexing_maps = [{IDm}, {IDm}], iterator_types = ["parallel"]}} ins(%m0 : memref<8xi32>) outs(%m1 : memref<8x{out}>) {{
+    ^bb0(%b0 : i32, %b1 : {out}):
+      %v = kernel.rescale %b0 {{input_zp = {zin} : i32, output_zp = {zout} : i32, multiplier = array<i32: {mult}>, shift = array<i8: {sh}>, min_int = {lo} : i32, max_int = {hi} : i32, double_round = {"true" if dr else "false"}}} : (i32) -> {out}
+      linalg.yield %v : {out}
+    }}
+    func.return
+  }}
+}}
+"""
+        ga = body_block(repo.parse(ref))
+        gb = gens[0]
+        ia, ib = finish_image(export_body(ga.body.block)), finish_image(export_body(gb.body.block))
+        xs = sorted({-300, -129, -128, -50, -8, -1, 0, 1, 5, 49, 100, 127, 128, 300} | {rng.randint(-300, 300) for _ in range(6)})
+        tcases.append({"name": name, "A": ia, "B": ib, "argdom": [xs, [0]], "opqdom": [[0]], "text": text, "after": str(gb), "pipe": "convert-tosa-to-kernel"})
+        kop = [o for o in gb.body.block.ops if o.name == "kernel.rescale"]
+        tflags.append({"kind": "eq", "clause": "RoundingModeKept", "name": name + "|rounding", "x": [int(bool(o.double_round.value.data)) for o in kop], "y": [int(dr)], "text": text})
+    cases += tcases
+    rep.extra["tosa_rescales_converted"] = len(tcases)
+    if tflags:
+        from objs import run_obj_batch
+        r, verdicts = run_obj_batch(pid, tflags, tag="tosaflags")
+        rep.add_tlc(r)
+        for tid, v in verdicts.items():
+            rep.evaluations += 1
+            if v != "ok":
+                c = tflags[tid - 1]
+                rep.violation(c["name"], f"clause {v} fails: kernel.rescale double_round {c['x']} for a tosa.rescale with {c['y']}", {"source": c["text"], "clause": v})
     rep.rule = (f"canonical kernel bodies + {n} generated linalg bodies over addi/muli/subi/extsi (random wirings, 60% following a kernel's op-type "
                 "sequence; widths i8..i64) through the real convert-linalg-to-kernel and back through convert-kernel-to-linalg; TLC evaluates the body "
                 "before/after on IRMachine with exact two's complement at reduced widths (i8->3, i16->4, i32->6, i64->8 bits) for all/extreme inputs; "
